@@ -441,12 +441,12 @@ def check_missing_values(prog: Prog, view, full: refsem.Model, wanted: dict, res
         return
     slots, n, _ = res
     c = prog.ctx
-    # bind B's missing inputs to the full model's meaning
-    sub_env = {}
+    # bind B's missing inputs to the full model's meaning (as hypotheses; see c13.missing_hyps)
+    sub_hyps = []
     for k in (rest_missing or {}):
         ev0 = Evaluator(c, full)
         try:
-            sub_env[c.inp(f"m_{k}")] = c.real(ev0.name_term(k, None))
+            sub_hyps.append(c.inp(f"m_{k}") == c.real(ev0.name_term(k, None)))
         except RefError:
             pass
     for name, idx in wanted.items():
@@ -461,8 +461,6 @@ def check_missing_values(prog: Prog, view, full: refsem.Model, wanted: dict, res
             prog.skip(label, f"reference: {e}")
             continue
         gen = slots[idx]
-        if sub_env:
-            gen = z3.substitute(gen, *sub_env.items())
 
         def ge(inputs, idx=idx):
             inp = dict(inputs)
@@ -472,4 +470,4 @@ def check_missing_values(prog: Prog, view, full: refsem.Model, wanted: dict, res
             return view.concrete(fn, inp)[idx]
 
         re_ = (lambda inputs, name=name: refsem.numeric(("var", name), env_from_inputs(full, inputs), full))
-        prog.eq(label, ev.dom, gen, ref, gen_eval=ge, ref_eval=re_, what=f"{fn}[{idx}] vs full-model value of {name}")
+        prog.eq(label, ev.dom + sub_hyps, gen, ref, gen_eval=ge, ref_eval=re_, what=f"{fn}[{idx}] vs full-model value of {name}")
